@@ -49,7 +49,9 @@ def run(ctx):
 
     words = ["x", "007", "00", "0", "1.5", "1.", ".5", "-1", "1e5", "10", "true", "TRUE", "False", "falſe",
              "a\"b", "back\\slash", "\\u0041", "tab\tbed", "\x01", "\x1b[31m", "\x7f", "héllo", "日本",
-             "\U0001F600", "{}", "[1]", ",", ":", "null", "12345678901234567890", "0.10"]
+             "\U0001F600", "{}", "[1]", ",", ":", "null", "12345678901234567890", "0.10",
+             "+1", "-0", "1e400", "1E+5", "5.", "0.0", "0.", "00.0", "9" * 310, "0." + "3" * 40, "a\u2028b", "\u2029",
+             "\x7f", "\\ud800", "tru", "TRUE ", "fa\u017fe", "\u212a"]
     n_lines = 60 if ctx["tier"] == "quick" else 600
     lines = []
     for _ in range(n_lines):
@@ -64,6 +66,8 @@ def run(ctx):
     matchers = [
         (["-m", r"^(?P<zeta>[^|]*)\|(?P<alpha>[^|]*)\|(?P<mid>[^|]*)$"], ["zeta", "alpha", "mid"]),
         (["-d", "%{zeta}|%{al\"pha}|%{m\\id}"], ["zeta", "al\"pha", "m\\id"]),
+        # a group named by a numeral: the member name "1" occurs twice in {.#} (valid JSON; both must decode)
+        (["-m", r"^(?P<zeta>[^|]*)\|(?P<1>[^|]*)\|(?P<mid>[^|]*)$"], ["zeta", "1", "mid"]),
     ]
     for margs, names in matchers:
         for key in ["{.}", "{#}", "{.#}"]:
